@@ -397,16 +397,68 @@ func (eng *Engine) callMode(fn *ssa.Function) (string, *FuncContract) {
 	if fn.Parent() != nil && len(fn.Blocks) > 0 {
 		return "inline", nil
 	}
-	// a loop-free helper of this module without a contract (for example one
-	// extracted by a refactoring) is executed in place as well, rather than
-	// treated as arbitrary code
-	if len(fn.Blocks) > 0 && fn.Pkg != nil && strings.HasPrefix(fn.Pkg.Pkg.Path(), modulePath) && fn.Synthetic == "" && len(eng.loopInfo(fn).headers) == 0 {
-		return "inline", nil
-	}
-	if o := fn.Origin(); o != nil && len(fn.Blocks) > 0 && o.Pkg != nil && strings.HasPrefix(o.Pkg.Pkg.Path(), modulePath) && len(eng.loopInfo(fn).headers) == 0 {
+	// a simple helper of this module without a contract (for example one
+	// extracted by a refactoring) is executed in place, rather than treated as
+	// arbitrary code: loop-free, and calling only builtins, functions under
+	// contract and other simple helpers
+	if eng.simpleHelper(fn, 0) {
 		return "inline", nil
 	}
 	return "unknown", nil
+}
+
+func (eng *Engine) simpleHelper(fn *ssa.Function, depth int) bool {
+	if depth > 3 || len(fn.Blocks) == 0 || fn.Synthetic != "" && !strings.HasPrefix(fn.Synthetic, "instance of") {
+		return false
+	}
+	p := fn.Pkg
+	if p == nil && fn.Origin() != nil {
+		p = fn.Origin().Pkg
+	}
+	if p == nil || !strings.HasPrefix(p.Pkg.Path(), modulePath) || len(eng.loopInfo(fn).headers) > 0 {
+		return false
+	}
+	for _, b := range fn.Blocks {
+		for _, in := range b.Instrs {
+			var cc *ssa.CallCommon
+			switch x := in.(type) {
+			case *ssa.Call:
+				cc = &x.Call
+			case *ssa.Defer:
+				return false
+			case *ssa.Go:
+				return false
+			case *ssa.MakeClosure:
+				return false
+			}
+			if cc == nil {
+				continue
+			}
+			if cc.IsInvoke() {
+				return false
+			}
+			if _, isB := cc.Value.(*ssa.Builtin); isB {
+				continue
+			}
+			callee := cc.StaticCallee()
+			if callee == nil || callee == fn {
+				return false
+			}
+			if c := eng.contractFor(callee); c != nil {
+				if c.Inline {
+					return false
+				}
+				continue
+			}
+			if eng.externalFor(callee) != nil {
+				continue
+			}
+			if !eng.simpleHelper(callee, depth+1) {
+				return false
+			}
+		}
+	}
+	return true
 }
 
 // ifaceContract finds the contract declared for an interface method.
